@@ -159,7 +159,7 @@ theorem uinv_rarrive {cfg : Cfg} {ws : WLog} {x : Reader} (hr : RInv cfg ws x) (
     (f : Frame) (hf : f ∈ x.wire) : UInv cfg (rarrive cfg x f) := by
   have hok : FrameOK cfg x f := hr.frames_ok f (List.mem_append_left _ hf)
   unfold rarrive
-  rw [demux_ok cfg x f hok]
+  rw [demux_ok cfg x hr.chan_ok f hok]
   simp only
   -- the receiver of this media and format
   have hst := rxGet_ok cfg x h (f.media, f.pkt.pt)
@@ -253,7 +253,7 @@ theorem uinv_ctl {cfg : Cfg} {ws : WLog} {x : Reader} (hr : RInv cfg ws x) (hu :
     split
     · exact h
     · exact uinv_frame h rfl rfl rfl (fun g hg => hg)
-  | setup m => simp only [rctl]; split <;> first | exact h | exact uinv_frame h rfl rfl rfl (fun g hg => hg)
+  | setup m req => simp only [rctl]; split <;> first | exact h | exact uinv_frame h rfl rfl rfl (fun g hg => hg)
   | play => simp only [rctl]; split <;> first | exact h | exact uinv_frame h rfl rfl rfl (fun g hg => hg)
   | pclose => simp only [rctl]; split <;> first | exact h | exact uinv_frame h rfl rfl rfl (fun g hg => hg)
   | pnil => simp only [rctl]; split <;> first | exact h | exact uinv_frame h rfl rfl rfl (fun g hg => hg)
